@@ -19,6 +19,7 @@ import (
 	"time"
 
 	"github.com/yandex/pandora/core"
+	"github.com/yandex/pandora/core/aggregator/netsample"
 	"github.com/yandex/pandora/core/engine"
 	"github.com/yandex/pandora/core/schedule"
 	"go.uber.org/zap"
@@ -540,6 +541,113 @@ func realProviderFaults(res *vkit.Result) {
 	}
 }
 
+// ---------------------------------------------------------------- real aggregators whose sink fails
+
+type nsGun struct {
+	st     *realState
+	aggr   core.Aggregator
+	closed atomic.Int32
+}
+
+func (g *nsGun) Bind(a core.Aggregator, _ core.GunDeps) error { g.aggr = a; return nil }
+func (g *nsGun) Shoot(core.Ammo) {
+	s := netsample.Acquire("t")
+	s.SetProtoCode(200)
+	g.st.shots.Add(1)
+	g.aggr.Report(s)
+}
+func (g *nsGun) Close() error { g.closed.Add(1); return nil }
+
+type aggrCase struct {
+	Aggregator string `json:"aggregator"` // phout | jsonlines
+	FailAfter  int    `json:"sink_fails_after_bytes"`
+	Queue      int    `json:"sample_queue_size"`
+	Instances  int    `json:"instances"`
+}
+
+// realAggregatorFault: the result file of a real aggregator accepts FailAfter bytes and then
+// fails every write (a full disk) while all instances keep reporting, into a small or a large
+// sample queue. The run must fail naming the aggregator, and after that Wait must return, every
+// instance finish and every gun be closed — nobody may stay blocked in Report.
+func realAggregatorFault(res *vkit.Result, c aggrCase) {
+	key := "C05/real-aggregator/" + c.Aggregator
+	path := fmt.Sprintf("/failwrite/%d/%s-%d-%d.out", c.FailAfter, c.Aggregator, c.Queue, c.Instances)
+	defer vkit.RemoveMem(path)
+	ammo := vkit.WriteMem([]byte("/x\n"))
+	defer vkit.RemoveMem(ammo)
+	result := map[string]any{"type": "phout", "destination": path, "sample-queue-size": c.Queue, "flush-time": "20ms", "buffer-size": "4KB"}
+	if c.Aggregator == "jsonlines" {
+		result = map[string]any{"type": "jsonlines", "sink": map[string]any{"type": "file", "path": path}, "sample-queue-size": c.Queue, "flush-interval": "20ms", "buffer-size": 512}
+	}
+	ec, err := vkit.DecodePools(map[string]any{"pools": []any{map[string]any{
+		"id": "p", "ammo": map[string]any{"type": "uri", "file": ammo}, "result": result,
+		"gun": map[string]any{"type": "http", "target": "127.0.0.1:1"}, "rps": map[string]any{"type": "unlimited", "duration": "60s"},
+		"startup": map[string]any{"type": "once", "times": c.Instances},
+	}}})
+	if err != nil {
+		res.Inconclusive(true, "real-aggregator pool rejected: %v", err)
+		return
+	}
+	st := &realState{}
+	var guns []*nsGun
+	ec.Pools[0].NewGun = func() (core.Gun, error) {
+		g := &nsGun{st: st}
+		st.mu.Lock()
+		guns = append(guns, g)
+		st.mu.Unlock()
+		return g, nil
+	}
+	m := vkit.NewMetrics()
+	eng := engine.New(vkit.NopLog(), m, ec)
+	done := make(chan error, 1)
+	go func() { done <- eng.Run(context.Background()) }()
+	var rerr error
+	select {
+	case rerr = <-done:
+	case <-time.After(30 * time.Second):
+		res.Violate(key+"/run-hang", "Engine.Run did not return within 30 s after the aggregator's sink failed:\n"+strings.Join(vkit.PandoraGoroutines(), "\n\n"), c)
+		return
+	}
+	if rerr == nil || !strings.Contains(rerr.Error(), "aggregator failed") {
+		res.Violate(key+"/outcome", fmt.Sprintf("the aggregator's sink failed (%v) but the run returned %v", vkit.ErrInjectedWrite, rerr), c)
+	}
+	wd := make(chan struct{})
+	go func() { eng.Wait(); close(wd) }()
+	select {
+	case <-wd:
+	case <-time.After(15 * time.Second):
+		res.Violate(key+"/wait-hang", fmt.Sprintf("Engine.Wait had not returned 15 s after the failed run (instances started %d, finished %d, %d reports):\n%s",
+			m.InstanceStart.Get(), m.InstanceFinish.Get(), st.shots.Load(), strings.Join(vkit.PandoraGoroutines(), "\n\n")), c)
+		return
+	}
+	if s, f := m.InstanceStart.Get(), m.InstanceFinish.Get(); s != f {
+		res.Violate(key+"/instances", fmt.Sprintf("%d instances started, %d finished", s, f), c)
+	}
+	st.mu.Lock()
+	for i, g := range guns {
+		if g.aggr != nil && g.closed.Load() != 1 {
+			res.Violate(key+"/gun-close", fmt.Sprintf("gun %d closed %d times", i, g.closed.Load()), c)
+		}
+	}
+	st.mu.Unlock()
+	res.Count("real_aggregator_faults", 1)
+	res.Count("real_aggregator_reports_before_fault", st.shots.Load())
+	res.Eval(vkit.JSON(c), true)
+}
+
+func realAggregatorFaults(res *vkit.Result) {
+	vkit.Fs()
+	for _, a := range []string{"phout", "jsonlines"} {
+		for _, after := range []int{0, 300, 65536} {
+			for _, q := range []int{1, 4096} {
+				for _, inst := range []int{1, 16} {
+					realAggregatorFault(res, aggrCase{Aggregator: a, FailAfter: after, Queue: q, Instances: inst})
+				}
+			}
+		}
+	}
+}
+
 func main() {
 	if vkit.IsChild() {
 		child()
@@ -590,6 +698,7 @@ func main() {
 			res.Violate(fmt.Sprintf("C05/%s/%s/process-died", p.Component, p.Pos), "child process died or hung while running this plan:\n"+c.Output, p)
 		}})
 	realProviderFaults(res)
+	realAggregatorFaults(res)
 	vkit.CheckRaceLog(res, "C05")
 	if res.Counter("faults_fired") < int64(len(cases)/3) {
 		res.Inconclusive(true, "too few faults fired: %d of %d runs", res.Counter("faults_fired"), len(cases))
